@@ -1190,3 +1190,45 @@ def core_clash_cases():
                             out.append({"src": {"jobs": [{"sp": {"a": 0}, "files": sfiles, "dirs": [], "doc": {"k": 1}}]},
                                         "dst": {"jobs": [{"sp": {"a": 0}, "files": dfiles, "dirs": []}]}, "opts": opts, "entry": entry})
     return out
+
+
+def core_parallel_cases():
+    """Pools of every size against 1-7 source jobs (some cloned, some synchronised): every job must be processed whatever
+    N modulo the number of workers is; real and dry runs, with and without a conflict."""
+    out = []
+    for n in range(1, 8):
+        for parallel in (2, 3, True):
+            for dry in (False, True):
+                for conflict in (False, True):
+                    src = {"jobs": [{"sp": {"a": i}, "files": {"x": ["A%d" % i, 2000], "only": ["S", 1000]}, "dirs": [], "doc": {"k": i}}
+                                    for i in range(n)]}
+                    dst = {"jobs": [{"sp": {"a": i}, "files": {"x": ["B", 1000]}, "dirs": []} for i in range(0, n, 2)]}
+                    opts = {"strategy": None if conflict else "always", "check_schema": False, "parallel": parallel}
+                    if dry:
+                        opts["dry_run"] = True
+                    out.append({"src": src, "dst": dst, "opts": opts, "entry": "Project.sync" if n % 2 else "sync_projects"})
+    return out
+
+
+def core_ignores_cases():
+    """Names of filecmp.DEFAULT_IGNORES on both sides / on one side: same size and mtime but different content (deep must
+    see it), different size, identical; as file and as directory."""
+    out = []
+    for name in ("tags", "CVS", ".git/config", "sub/tags", "__pycache__/m.pyc"):
+        for kind in ("same_sig", "differ", "same", "src_only"):
+            for deep in (False, True):
+                for strat in (None, "always", "never", "update"):
+                    for entry in ("Project.sync", ["Job.sync", {"a": 0}, {"a": 0}]):
+                        sfiles, dfiles = {name: ["AAAA", 1000], "keep": ["K", 1000]}, {"keep": ["K", 1000]}
+                        if kind == "same_sig":
+                            dfiles[name] = ["BBBB", 1000]
+                        elif kind == "differ":
+                            dfiles[name] = ["B", 2000]
+                        elif kind == "same":
+                            dfiles[name] = ["AAAA", 1000]
+                        opts = {"strategy": strat, "recursive": True, "check_schema": False, "doc_sync": "nosync"}
+                        if deep:
+                            opts["deep"] = True
+                        out.append({"src": {"jobs": [{"sp": {"a": 0}, "files": sfiles, "dirs": []}]},
+                                    "dst": {"jobs": [{"sp": {"a": 0}, "files": dfiles, "dirs": []}]}, "opts": opts, "entry": entry})
+    return out
